@@ -2,6 +2,7 @@ import Frp.Lemmas.Base64
 import Frp.Lemmas.Udp
 import Frp.Lemmas.Sudp
 import Frp.Lemmas.UdpSrv
+import Frp.Lemmas.SudpPx
 /-
   C03 — UDP tunnels preserve datagram payloads, boundaries and reply addressing.
 
@@ -15,7 +16,11 @@ import Frp.Lemmas.UdpSrv
           Frp/Model/UdpSrv.lean (server/proxy/udp.go Run: the work-connection loop, one reader and one
                                  sender goroutine per work connection, sendCh / readCh / checkCloseCh
                                  shared by all work connections, per-connection cancel).
-  Lemmas: Frp/Lemmas/Base64.lean, Frp/Lemmas/Udp.lean, Frp/Lemmas/Sudp.lean, Frp/Lemmas/UdpSrv.lean.
+          Frp/Model/SudpPx.lean (client/proxy/sudp.go InWorkConn: SEVERAL work connections alive at once — one
+                                 per visitor connection —, each with its own reader / sender / heartbeat
+                                 goroutines, readCh / sendCh, closeFn and Forwarder; the proxy shares only closeCh).
+  Lemmas: Frp/Lemmas/Base64.lean, Frp/Lemmas/Udp.lean, Frp/Lemmas/Sudp.lean, Frp/Lemmas/UdpSrv.lean,
+          Frp/Lemmas/SudpPx.lean.
 
   Every statement about the forwarding machine is about `run (init …) ls` for an arbitrary label
   list `ls`, i.e. for every interleaving of user datagrams (any number of source addresses),
@@ -795,6 +800,273 @@ theorem srv_model_safe {s : UdpSrv.St} (h : VReachable s) (x : View) :
     (s.wire.map Prod.snd).count x ≤ s.sentV.count x ∧
     (s.userLog.map uview).count x ≤ (s.inLog.map Prod.snd).count x :=
   ⟨srv_no_dup_across_connections h x, srv_reply_no_dup h x⟩
+
+/-! ## 7. client side of a sudp proxy: several work connections alive at once (one per visitor connection)
+
+  `SudpPx.run (SudpPx.init …) ls` for an arbitrary label list `ls`: every interleaving of further InWorkConn
+  calls, of the actions of the reader / sender / heartbeat / Forwarder goroutines of EVERY connection (inbound
+  packets, forwarding, backend replies, writes that succeed or fail, reader failures, socket expiry, pings) and of
+  `Close()` of the proxy. -/
+
+def PReachable (s : SudpPx.St) : Prop := ∃ bs cap ls, s = SudpPx.run (SudpPx.init bs cap) ls
+
+theorem px_reachable_inv {s : SudpPx.St} (h : PReachable s) : SudpPx.Inv s := by
+  obtain ⟨bs, cap, ls, rfl⟩ := h
+  exact SudpPx.inv_run _ (SudpPx.inv_init bs cap) ls
+
+theorem px_conn_mem {s : SudpPx.St} {i : Nat} {c : SudpPx.Conn} (hc : s.conn i = some c) : c ∈ s.conns :=
+  List.mem_iff_getElem?.2 ⟨i, hc⟩
+
+/-- **conservation per work connection, visitor → backend**: every UDPPacket read from work connection `i` is,
+    at any time, exactly one of: queued in the readCh of connection `i`, handed to the backend through a socket
+    of connection `i`, or dropped at a listed site of connection `i` (multisets).  Nothing of connection `i`
+    shows up anywhere else, nothing is duplicated. -/
+theorem px_conservation_up {s : SudpPx.St} (h : PReachable s) {i : Nat} {c : SudpPx.Conn}
+    (hc : s.conn i = some c) (x : View) :
+    c.inLog.count x = (c.readCh.map view).count x + (c.backendLog.map Prod.snd).count x
+      + (c.dropUp.map Prod.snd).count x :=
+  ((px_reachable_inv h) c (px_conn_mem hc)).1.up x
+
+/-- **conservation per work connection, backend → visitor**: every reply read from a socket of connection `i`
+    is exactly one of: queued in the sendCh of connection `i`, written on work connection `i`, or dropped at a
+    listed site of connection `i`. -/
+theorem px_conservation_down {s : SudpPx.St} (h : PReachable s) {i : Nat} {c : SudpPx.Conn}
+    (hc : s.conn i = some c) (x : View) :
+    (c.replyLog.map Prod.snd).count x = ((SudpPx.pkts c.sendCh).map view).count x + c.wire.count x
+      + (c.dropDown.map Prod.snd).count x :=
+  ((px_reachable_inv h) c (px_conn_mem hc)).1.down x
+
+/-- **a reply travels on the work connection of the visitor it answers, and only there**: whatever is written
+    on work connection `i` was read from a socket `k` of connection `i` that was dialled for exactly the user
+    address the packet is tagged with — and that socket was dialled for a datagram that came in on connection `i`. -/
+theorem px_reply_routing {s : SudpPx.St} (h : PReachable s) {i : Nat} {c : SudpPx.Conn}
+    (hc : s.conn i = some c) {x : View} (hm : x ∈ c.wire) :
+    ∃ k, (k, x) ∈ c.replyLog ∧ (k, x.1) ∈ c.socks ∧ ∀ a', (k, a') ∈ c.socks → a' = x.1 := by
+  have hinv := ((px_reachable_inv h) c (px_conn_mem hc)).1
+  have hd := hinv.down x
+  have hpos : 0 < c.wire.count x := List.count_pos_iff.2 hm
+  have hs : 0 < (c.replyLog.map Prod.snd).count x := by omega
+  obtain ⟨⟨k, v⟩, hin, heq⟩ := List.mem_map.1 (List.count_pos_iff.1 hs)
+  simp only at heq
+  subst heq
+  have hk := hinv.replySock _ hin
+  exact ⟨k, hin, hk, fun a' ha' => hinv.socksFun k a' v.1 ha' hk⟩
+
+/-- no duplicated / invented replies on a work connection -/
+theorem px_reply_no_dup {s : SudpPx.St} (h : PReachable s) {i : Nat} {c : SudpPx.Conn}
+    (hc : s.conn i = some c) (x : View) : c.wire.count x ≤ (c.replyLog.map Prod.snd).count x := by
+  have := px_conservation_down h hc x; omega
+
+/-- what the backend is handed through a socket of connection `i` is a packet that came in on connection `i`
+    (same payload, same user address), at most as often as it came in, and the socket belongs to that address -/
+theorem px_backend_payload {s : SudpPx.St} (h : PReachable s) {i : Nat} {c : SudpPx.Conn}
+    (hc : s.conn i = some c) {k : Nat} {x : View} (hm : (k, x) ∈ c.backendLog) :
+    x ∈ c.inLog ∧ (c.backendLog.map Prod.snd).count x ≤ c.inLog.count x ∧ (k, x.1) ∈ c.socks := by
+  have hinv := ((px_reachable_inv h) c (px_conn_mem hc)).1
+  have hu := hinv.up x
+  have hpos : 0 < (c.backendLog.map Prod.snd).count x :=
+    List.count_pos_iff.2 (List.mem_map.2 ⟨(k, x), hm, rfl⟩)
+  exact ⟨List.count_pos_iff.1 (by omega), by omega, hinv.backendSock _ hm⟩
+
+/-- a socket towards the backend serves one user address of one connection only -/
+theorem px_socket_exclusive {s : SudpPx.St} (h : PReachable s) {i : Nat} {c : SudpPx.Conn}
+    (hc : s.conn i = some c) {k : Nat} {v v' : View} (h1 : (k, v) ∈ c.backendLog) (h2 : (k, v') ∈ c.backendLog) :
+    v.1 = v'.1 := by
+  have hinv := ((px_reachable_inv h) c (px_conn_mem hc)).1
+  exact hinv.socksFun k v.1 v'.1 (hinv.backendSock _ h1) (hinv.backendSock _ h2)
+
+/-- **an action of connection `j` leaves every other connection exactly as it was** -/
+theorem px_step_other (s : SudpPx.St) {i j : Nat} (hij : i ≠ j) (l : SudpPx.CLabel) :
+    (SudpPx.step s (.at j l)).conn i = s.conn i :=
+  SudpPx.step_other s hij l
+
+/-- **a further work connection leaves every existing one exactly as it was**; it starts fresh with its own
+    channels, flags and socket map -/
+theorem px_open_keeps (s : SudpPx.St) :
+    (∀ i, i < s.conns.length → (SudpPx.step s .open_).conn i = s.conn i) ∧
+    (SudpPx.step s .open_).conn s.conns.length = some (SudpPx.Conn.init s.bs s.cap) :=
+  ⟨(SudpPx.step_open s).1, (SudpPx.step_open s).2.1⟩
+
+/-- **closing or replacing connection j never disturbs i ≠ j, for all interleavings**: a run in which no action
+    is addressed to connection `i` — any number of further connections opened, any traffic on them, any of them
+    closed in any way, even `Close()` of the proxy — leaves connection `i` exactly as it was -/
+theorem px_frame (s : SudpPx.St) (ls : List SudpPx.Label) (i : Nat) (hi : i < s.conns.length)
+    (hl : ∀ l ∈ ls, SudpPx.addressed i l = false) : (SudpPx.run s ls).conn i = s.conn i :=
+  SudpPx.run_frame s ls i hi hl
+
+/-- **the behaviour of a connection is a function of its own actions**: after ANY run connection `i` is what
+    its own actions (each with the value `pxy.closeCh` had at its time) make of it, however they interleave with
+    the opening, the traffic and the closing of every other connection -/
+theorem px_projection (s : SudpPx.St) (ls : List SudpPx.Label) (i : Nat) (c : SudpPx.Conn)
+    (hc : s.conn i = some c) :
+    (SudpPx.run s ls).conn i = some (SudpPx.crun c (SudpPx.proj i s.pclosed ls)) :=
+  SudpPx.run_proj s ls i c hc
+
+/-- **why a work connection gets closed**: only by an action of that connection itself — its reader failing,
+    its sender failing to write, or its heartbeat seeing the proxy closed.  Never by a new work connection,
+    never by anything that happens on another connection. -/
+theorem px_close_causes (s : SudpPx.St) (l : SudpPx.Label) (i : Nat) (c c' : SudpPx.Conn)
+    (h0 : s.conn i = some c) (h1 : (SudpPx.step s l).conn i = some c') (ho : c.isClose = false)
+    (hc : c'.isClose = true) :
+    (l = .at i .readerDie ∧ c'.cause = some .readErr) ∨
+    ((∃ ok, l = .at i (.send ok)) ∧ c'.cause = some .writeErr) ∨
+    (l = .at i .hbClose ∧ s.pclosed = true ∧ c'.cause = some .proxyClosed) :=
+  SudpPx.close_causes s l i c c' h0 h1 ho hc
+
+/-- **an open connection has all its goroutines and has dropped nothing except by overload, an undecodable
+    content or a failed write to the backend** (drops because of a closed channel / connection occur on closed
+    connections only: "while the work connection is being re-established") -/
+theorem px_open_conn_healthy {s : SudpPx.St} (h : PReachable s) {i : Nat} {c : SudpPx.Conn}
+    (hc : s.conn i = some c) (ho : c.isClose = false) :
+    c.reader = true ∧ c.sender = true ∧ c.hb = true ∧ c.cause = none ∧
+    (∀ e ∈ c.dropUp, e.1 = SudpPx.PDrop.decodeErr ∨ e.1 = SudpPx.PDrop.writeErr) ∧
+    (∀ e ∈ c.dropDown, e.1 = SudpPx.PDrop.replyFull) := by
+  have hf := ((px_reachable_inv h) c (px_conn_mem hc)).2.1
+  obtain ⟨a, b, c1, d⟩ := hf.openOK ho
+  exact ⟨a, b, c1, d, hf.openUp ho, hf.openDown ho⟩
+
+/-- a closed connection carries the reason of its closing -/
+theorem px_closed_has_cause {s : SudpPx.St} (h : PReachable s) {i : Nat} {c : SudpPx.Conn}
+    (hc : s.conn i = some c) (hcl : c.isClose = true) : c.cause ≠ none :=
+  ((px_reachable_inv h) c (px_conn_mem hc)).2.1.closedCause hcl
+
+/-- **at light load they arrive, whatever the other connections do**: connection `i` open and idle; after ANY
+    run `ls` of actions that are not its own (other visitors connecting, sending, being closed, …) a datagram
+    read from work connection `i` is handed to the backend on the socket of its user address on connection `i`,
+    and nothing is dropped -/
+theorem px_delivers_despite_others (s : SudpPx.St) (ls : List SudpPx.Label) (i : Nat) (c : SudpPx.Conn)
+    (hc : s.conn i = some c) (hl : ∀ l ∈ ls, SudpPx.addressed i l = false)
+    (a : Addr) (p : Str) (hb : isBytes p = true) (ho : c.isClose = false) (hr : c.reader = true)
+    (hq : c.readCh = []) (hcap : 0 < c.cap)
+    (hs : ∀ k, lookup c.cmap (some a) = some k → c.closedSocks.contains k = false) :
+    ∃ c', (SudpPx.run (SudpPx.run s ls) [.at i (.recv (packetOf p none (some a))), .at i (.fwd true)]).conn i = some c' ∧
+      c'.backendLog = c.backendLog ++ [((lookup c.cmap (some a)).getD c.nextSock, (some a, some p))] ∧
+      c'.dropUp = c.dropUp ∧ c'.isClose = false := by
+  have hi : i < s.conns.length := by
+    simp only [SudpPx.St.conn] at hc
+    exact (List.getElem?_eq_some_iff.1 hc).1
+  have h1 : (SudpPx.run s ls).conn i = some c := by rw [SudpPx.run_frame s ls i hi hl]; exact hc
+  have h2 := SudpPx.run_proj (SudpPx.run s ls) [.at i (.recv (packetOf p none (some a))), .at i (.fwd true)] i c h1
+  have h3 := SudpPx.conn_delivers (SudpPx.run s ls).pclosed c a p hb ho hr hq hcap hs
+  simp only [SudpPx.proj, if_true] at h2
+  exact ⟨_, h2, h3.1, h3.2.1, h3.2.2.2⟩
+
+/-- … and the reply the backend sends to that socket is written on work connection `i`, tagged with the user
+    address the socket was dialled for, whatever the other connections do meanwhile -/
+theorem px_reply_delivers_despite_others (s : SudpPx.St) (ls : List SudpPx.Label) (i : Nat) (c : SudpPx.Conn)
+    (hc : s.conn i = some c) (hl : ∀ l ∈ ls, SudpPx.addressed i l = false)
+    (k : Nat) (a : Option Addr) (q : Str) (hb : isBytes q = true) (ho : c.isClose = false)
+    (hsd : c.sender = true) (hq : c.sendCh = []) (hcap : 0 < c.cap) (hown : ownerOf c.socks k = some a)
+    (hlive : lookup c.cmap a = some k) (hopen : c.closedSocks.contains k = false) :
+    ∃ c', (SudpPx.run (SudpPx.run s ls) [.at i (.backendReply k q), .at i (.send true)]).conn i = some c' ∧
+      c'.wire = c.wire ++ [(a, some (rd c.bs q))] ∧ c'.dropDown = c.dropDown ∧ c'.isClose = false := by
+  have hi : i < s.conns.length := by
+    simp only [SudpPx.St.conn] at hc
+    exact (List.getElem?_eq_some_iff.1 hc).1
+  have h1 : (SudpPx.run s ls).conn i = some c := by rw [SudpPx.run_frame s ls i hi hl]; exact hc
+  have h2 := SudpPx.run_proj (SudpPx.run s ls) [.at i (.backendReply k q), .at i (.send true)] i c h1
+  have h3 := SudpPx.conn_reply_delivers (SudpPx.run s ls).pclosed c k a q hb ho hsd hq hcap hown hlive hopen
+  simp only [SudpPx.proj, if_true] at h2
+  exact ⟨_, h2, h3.1, h3.2.1, h3.2.2.2⟩
+
+/-! ### non-vacuity: two visitors on one sudp proxy with overlapping request / reply windows -/
+
+/-- visitor 0 sends a request (connection 0); while its answer is outstanding visitor 1 connects (connection 1),
+    sends and is answered; connection 1 is then lost; only now the backend answers visitor 0 -/
+def pxDemo : List SudpPx.Label :=
+  [.open_, .at 0 (.recv (packetOf [1] none (some ua))), .at 0 (.fwd true),
+   .open_, .at 1 (.recv (packetOf [2] none (some ub))), .at 1 (.fwd true),
+   .at 1 (.backendReply 0 [20]), .at 1 (.send true), .at 1 .readerDie,
+   .at 0 (.backendReply 0 [10]), .at 0 (.send true)]
+
+example : PReachable (SudpPx.run (SudpPx.init 1500 1024) pxDemo) := ⟨1500, 1024, pxDemo, rfl⟩
+/-- the late answer for visitor 0 is written on connection 0, the answer for visitor 1 on connection 1 -/
+example : (SudpPx.run (SudpPx.init 1500 1024) pxDemo).conns.map (·.wire)
+    = [[(some ua, some [10])], [(some ub, some [20])]] := by decide +kernel
+example : (SudpPx.run (SudpPx.init 1500 1024) pxDemo).conns.map (·.isClose) = [false, true] := by decide +kernel
+example : (SudpPx.run (SudpPx.init 1500 1024) pxDemo).conns.map (·.cause) = [none, some .readErr] := by
+  decide +kernel
+/-- the same user address on two connections: two sockets, each answer on its own connection -/
+example : (SudpPx.run (SudpPx.init 1500 1024)
+    [.open_, .open_, .at 0 (.recv (packetOf [1] none (some ua))), .at 1 (.recv (packetOf [2] none (some ua))),
+     .at 1 (.fwd true), .at 0 (.fwd true), .at 0 (.backendReply 0 [10]), .at 1 (.backendReply 0 [20]),
+     .at 0 (.send true), .at 1 (.send true)]).conns.map (·.wire)
+    = [[(some ua, some [10])], [(some ua, some [20])]] := by decide +kernel
+/-- a reply that arrives after ITS OWN connection was closed is dropped (closed channel), the socket goes away -/
+example : ((SudpPx.run (SudpPx.init 1500 1024)
+    [.open_, .at 0 (.recv (packetOf [1] none (some ua))), .at 0 (.fwd true), .at 0 .readerDie,
+     .at 0 (.backendReply 0 [10])]).conns.map (fun c => c.dropDown.map Prod.fst))
+    = [[SudpPx.PDrop.closedCh]] := by decide +kernel
+/-- `Close()` of the proxy: every heartbeat closes its own connection -/
+example : ((SudpPx.run (SudpPx.init 1500 1024)
+    [.open_, .open_, .at 0 .hbClose, .proxyClose, .at 0 .hbClose, .at 1 .hbClose]).conns.map (·.cause))
+    = [some .proxyClosed, some .proxyClosed] := by decide +kernel
+
+/-- client-side sudp proxy run at light load with several scripted work connections.  `E` = the datagrams sent
+    on connections that were open (the backend must get exactly these), `B` = what the backend got; per
+    connection `c`: `Rs c` = the answers to the requests sent on `c` that the backend sent while `c` was open
+    (they must be read back on `c`, and nothing else may), `Us c` = what was read back on `c`;
+    `aliveExp` / `alive` = which connections the script has left alone / which ones the proxy has not closed;
+    `mixed` = a backend-side socket carried datagrams of two (connection, user) pairs; `bad` = a packet
+    carried a wrong address tag. -/
+def HoldsOnPx {α} [DecidableEq α] (E B : List α) (Rs Us : List (List α)) (aliveExp alive : List Bool)
+    (mixed bad : Bool) : Prop :=
+  MsEq B E ∧ Us.length = Rs.length ∧ (∀ p ∈ Us.zip Rs, MsEq p.1 p.2) ∧ alive = aliveExp ∧ mixed = false ∧ bad = false
+
+def holdsOnPx {α} [DecidableEq α] (E B : List α) (Rs Us : List (List α)) (aliveExp alive : List Bool)
+    (mixed bad : Bool) : Bool :=
+  msEq B E && Us.length == Rs.length && (Us.zip Rs).all (fun p => msEq p.1 p.2) && alive == aliveExp && !mixed && !bad
+
+theorem holdsOnPx_sound {α} [DecidableEq α] (E B : List α) (Rs Us : List (List α)) (aliveExp alive : List Bool)
+    (mixed bad : Bool) :
+    holdsOnPx E B Rs Us aliveExp alive mixed bad = true ↔ HoldsOnPx E B Rs Us aliveExp alive mixed bad := by
+  simp only [holdsOnPx, HoldsOnPx, Bool.and_eq_true, msEq_sound, beq_iff_eq, List.all_eq_true,
+    Bool.not_eq_true', and_assoc]
+
+/-- the model's own logs satisfy the safety half of that predicate on every connection of every reachable state -/
+theorem px_model_safe {s : SudpPx.St} (h : PReachable s) {i : Nat} {c : SudpPx.Conn} (hc : s.conn i = some c)
+    (x : View) :
+    (c.backendLog.map Prod.snd).count x ≤ c.inLog.count x ∧ c.wire.count x ≤ (c.replyLog.map Prod.snd).count x := by
+  have h1 := px_conservation_up h hc x
+  have h2 := px_conservation_down h hc x
+  exact ⟨by omega, by omega⟩
+
+/-! ## 8. Codec: decoded payloads are values
+
+  The model is pure: `contentOf` is a function, so decoding a packet can neither be influenced by nor influence
+  the result of decoding any other packet.  The statements below say what that means for a BATCH of packets
+  whose results are all kept; the `batch` op evaluates `holdsOnBatch` on the results the real `GetContent`
+  returned and that the harness RETAINED while all the other packets (of the same goroutine and of the
+  goroutines running next to it) were decoded. -/
+
+/-- decoding a batch gives back every payload, in place -/
+theorem batch_roundtrip (bs : List Str) (l r : Option Addr) (hb : ∀ b ∈ bs, bytes b) :
+    (bs.map (fun b => packetOf b l r)).map contentOf = bs.map some := by
+  rw [List.map_map]
+  apply List.map_congr_left
+  intro b hbm
+  exact contentOf_packetOf b l r (hb b hbm)
+
+/-- **independence**: the `i`-th result of a batch is the decoding of the `i`-th packet alone — whatever stands
+    before or after it in the batch -/
+theorem batch_independent (ps : List Packet) (i : Nat) :
+    (ps.map contentOf)[i]? = (ps[i]?).map contentOf := List.getElem?_map
+
+/-- … so results are not disturbed by decoding more: the results of a longer batch start with the results of
+    the shorter one -/
+theorem batch_prefix_stable (ps qs : List Packet) :
+    ((ps ++ qs).map contentOf).take ps.length = ps.map contentOf := by
+  rw [List.map_append, List.take_left' (by simp)]
+
+/-- what the harness keeps per decoded packet: length and hash of the result (`none` = GetContent error) -/
+def holdsOnBatch {α} [DecidableEq α] (expected got : List (List α)) : Bool := decide (got = expected)
+
+theorem holdsOnBatch_sound {α} [DecidableEq α] (expected got : List (List α)) :
+    holdsOnBatch expected got = true ↔ got = expected := by
+  simp [holdsOnBatch]
+
+example : (([[1, 2, 3], [4], []].map (fun b => packetOf b none none)).map contentOf)
+    = [some [1, 2, 3], some [4], some []] := by decide +kernel
 
 end C03
 end Frp
